@@ -356,6 +356,15 @@ def grid_cases(tier, seed):
                         yield {"kind": kind, "cfg": {"key_prefix": b"t:" if (n + fi) % 2 else b"", "allow_unicode_keys": False, "encoding": "ascii"}, "serde": spec,
                                "items": [["k%d" % j, vd] for j, vd in enumerate(fam)], "absent": [], "store": store, "fetch": fetch, "coll": "list",
                                "pieces": None, "noreply": False}
+    # bytes the application packed itself (a complete zlib / gzip / bz2 stream, a pickle - optionally with trailing bytes):
+    # to the cache they are bytes and come back bit for bit, whatever serializer is configured
+    for spec in (None, ("json",), ("pickle", 2), ("compressed", 10), ("compressed", 400), ("compressed-default",)):
+        for kind in ("client", "pooled", "hash"):
+            for store, fetch in (("set", "get"), ("set_many", "get_many"), ("add", "gets")):
+                yield {"kind": kind, "cfg": {"key_prefix": b"z:", "allow_unicode_keys": False, "encoding": "ascii"}, "serde": spec,
+                       "items": [["z1", ("packed", "zlib", b"hello world")], ["z2", ("packed", "zlib", b"payload", b"trailing")], ["z3", ("packed", "zlib", b"q" * 3000)],
+                                 ["g1", ("packed", "gzip", b"hello")], ["b1", ("packed", "bz2", b"hello")], ["p1", ("packed", "pickle", b"inner")]],
+                       "absent": [], "store": store, "fetch": fetch, "coll": "list", "pieces": None, "noreply": False}
     # the same items fetched under the other spelling of their keys and then under the first one again
     for kind in ("client", "pooled", "hash", "hash-pooled"):
         for pfx in (b"", b"p:"):
